@@ -12,7 +12,7 @@ CHECKS = {
         design="DESIGN.md section 2 C16",
     ),
     "C04": dict(
-        text="Generated-input search over executable programs with adversarial layouts (dead code branching/calling into live code, back edges, branch to next line, branch/call as last instruction, structured and unstructured subroutines). Two oracles: validity predicates of tealer's blocks against an independently built reference CFG, and every concrete reference-interpreter execution (accepted or rejected) must be a walk in tealer's graph with matched call/return. Exploration.",
+        text="Generated-input search over executable programs with adversarial layouts (dead code branching/calling into live code, back edges, branch to next line, branch/call as last instruction, structured and unstructured subroutines). Two oracles: validity predicates of tealer's blocks against an independently built reference CFG, and every concrete reference-interpreter execution (accepted or rejected) must be a walk in tealer's graph with matched call/return; a third component checks the block lists of functions cut out by drawn dispatch paths (off-path successors replaced in place, bz/bnz successor order, mirrored lists). Exploration.",
         note="Trusted: vf/rcfg.py (reference CFG from the flat instruction list), vf/ravm.py (reference interpreter, self-tested in setup), generator emits assembler-valid programs by construction.",
         technique="property-based testing: differential against reference CFG + execution-trace walk check",
         design="DESIGN.md section 2 C04",
@@ -42,7 +42,7 @@ CHECKS = {
         design="DESIGN.md section 2 C02",
     ),
     "C03": dict(
-        text="Generated-input search over direct-check programs; the literal-reading oracle decides whether any accepting walk admits the dangerous value; if none, the detector must report nothing. Protected and unprotected programs are both produced and counted. Exploration.",
+        text="Generated-input search over direct-check programs; the literal-reading oracle decides whether any accepting walk admits the dangerous value; if none, the detector must report nothing (two-field detectors: one field at a time). Components: own `txn F` checks (logic-sig, application), pinned position (`txn GroupIndex == i` asserted first, checks spelled `gtxn i F`), all slots (`gtxn 0..15 F`). Protected and unprotected programs are both produced and counted. Exploration.",
         note="Trusted: vf/rlit.py (literal-reading oracle: per-value restricted graph + interprocedural reachability with matched calls) fed by the generator's condition annotations; precision is only asserted on the direct-check fragment.",
         technique="property-based testing: reference model (literal reading) implies empty report",
         design="DESIGN.md section 2 C03",
@@ -96,7 +96,7 @@ CHECKS = {
         design="DESIGN.md section 2 C10",
     ),
     "C12": dict(
-        text="Generated-input search over programs x root-to-block dispatch paths x build orders; structural validity of the function (copied main blocks, error blocks exactly at off-path successors, shared subroutines), soundness of its contexts for the reference executions that start with the path, independence from other functions built, and an unchanged structural snapshot of the contract's own graph. Exploration.",
+        text="Generated-input search over programs x root-to-block dispatch paths x build orders; structural validity of the function (copied main blocks, error blocks exactly at off-path successors, shared subroutines), soundness of its contexts for the reference executions that start with the path, independence from other functions built, an unchanged structural snapshot of the contract's own graph, and agreement of the functions listed together in a group configuration file with the same functions built alone. Exploration.",
         note='Trusted: vf/ravm.py (reference AVM interpreter for the modelled fragment, self-tested at setup), vf/rcfg.py, generator-side condition annotations; witnesses are well-formed transactions only; the valuation search is capped by run count (a cap can hide a violation, never invent one).',
         technique="property-based testing: reference model + metamorphic (build order) + invariant (contract graph unchanged)",
         design="DESIGN.md section 2 C12",
@@ -108,7 +108,7 @@ CHECKS = {
         design="DESIGN.md section 2 C13",
     ),
     "C14": dict(
-        text="Generated histories (pool of programs x sequences of analyse / detect in drawn order and repetition / rebuild function / printer) in one process; after every step the canonical snapshot must equal the baseline computed for the program alone in a fresh subprocess; a second fresh subprocess under another PYTHONHASHSEED must give byte-identical output; contexts are compared before/after detectors. Exploration over histories.",
+        text="Generated histories (pool of programs, decorated with instruction pairs the instruction-listing detectors report and with address comparisons against run-time values, x sequences of analyse / detect over all 12 detectors in drawn order and repetition / several contracts in one run / rebuild function / printer) in one process; after every step the canonical snapshot must equal the baseline computed for the program alone in a fresh subprocess; a second fresh subprocess under another PYTHONHASHSEED must give byte-identical output; contexts are compared before/after detectors. Exploration over histories.",
         note="Trusted: the snapshot canonicalisation (sets sorted, path order and JSON bytes exact). Fresh-process baselines are real subprocesses of /venv/bin/python.",
         technique="property-based testing: history (operation-sequence) generation against a fresh-process baseline; hash-seed differential",
         design="DESIGN.md section 2 C14",
